@@ -16,9 +16,9 @@ use crate::seq::Seq;
 use crate::world::*;
 use std::time::Duration;
 
-pub const LETTERS: [&str; 16] = [
+pub const LETTERS: [&str; 17] = [
     "publish", "pull1", "pullall", "ack_oldest", "ack_newest", "ack_stale", "ack_unknown", "ack_again", "nack_oldest", "modify_oldest_30", "adv_before", "adv_past", "ack_dead_then_live",
-    "ack_oldest_at_the_wire", "ack_dup_to_count", "ack_dead_to_count",
+    "ack_oldest_at_the_wire", "ack_dup_to_count", "ack_dead_to_count", "ack_two_oldest",
 ];
 
 fn enum_len(p: &EpParams) -> u32 {
@@ -182,6 +182,22 @@ pub async fn apply(seq: &mut Seq, c: &mut Ctx, letter: &str, sub: &str) {
                     seq.ack(sub, &["424247".to_string()]).await;
                     c.odd_acks += 1;
                 }
+            }
+        }
+        "ack_two_oldest" => {
+            // one request naming the two oldest leases (consecutive IDs when they were pulled one
+            // after the other), whatever their deadlines are by now; every other lease is a bystander
+            let ls = leases_sorted(seq, sub);
+            if ls.len() >= 2 {
+                let now = seq.now();
+                let certain = ls[..2].iter().filter(|(_, l)| now < l.lo).count() as u64;
+                let ids: Vec<String> = ls[..2].iter().map(|x| x.0.clone()).collect();
+                seq.ack(sub, &ids).await;
+                c.last_acked = Some(ids[0].clone());
+                c.effective_acks += certain;
+            } else {
+                seq.ack(sub, &["424249".to_string(), "424250".to_string()]).await;
+                c.odd_acks += 1;
             }
         }
         "ack_dup_to_count" => {
@@ -368,7 +384,7 @@ async fn episode(p: &EpParams) -> EpReport {
         let n = rng.range(40, 80);
         let ext = [
             "ack_dead_then_live", "ack_oldest_at_the_wire", "ack_dup_to_count", "ack_dead_to_count", "publish", "publish3", "pull1", "pullall", "ack_oldest", "ack_newest", "ack_stale", "ack_unknown", "ack_again", "nack_oldest", "modify_oldest_30", "modify_newest_3", "modify_oldest_700",
-            "adv_before", "adv_past", "pull1", "ack_oldest", "publish", "stream_ack_oldest", "stream_ack_oldest",
+            "adv_before", "adv_past", "pull1", "ack_oldest", "publish", "stream_ack_oldest", "stream_ack_oldest", "ack_two_oldest",
         ];
         let mut ls = Vec::new();
         for _ in 0..n {
